@@ -10,7 +10,7 @@ def run(ctx, rep):
     operators.rule_unordered_comparisons(ctx, rep, "C06-R6")
     operators.rule_host_operator_pitfalls(ctx, rep, "C06-R7")
     operators.rule_host_truthiness(ctx, rep, "C06-R8")
+    operators.rule_int_results_normalised(ctx, rep, "C06-R5")
     rep.undecided += [
         "the operator/conversion value table (about 80 x 80 x 45 cells against a reference): a runtime differential, outside static analysis",
-        "int/float representation independence of results (C06-R5 not built)",
     ]
